@@ -28,7 +28,6 @@ package main
 // OPERAND: both rules need operands with and without parentheses on other lines than the operator).
 
 import (
-	"context"
 	"fmt"
 	"regexp"
 	"strconv"
@@ -343,7 +342,8 @@ var ltErrLineRe = regexp.MustCompile(`^<string>:(\d+):`)
 func runErrLine(src string, lv, gv []string) string {
 	L := lua.NewState(lua.Options{SkipOpenLibs: true})
 	defer L.Close()
-	ctx, cancel := context.WithTimeout(context.Background(), 2*time.Second)
+	// instruction budget, not a wall-clock limit (the generated loops are bounded: a program that exhausts it loops)
+	ctx, cancel := newBudgetCtxWithBackstop(2000000, 2*time.Minute)
 	defer cancel()
 	L.SetContext(ctx)
 	fn, err := L.LoadString(src)
